@@ -62,7 +62,7 @@ def ctfe_stage(rep):
 
 
 def miri_engine(i, deep):
-    env = dict(os.environ, CARGO_NET_OFFLINE="true", CARGO_TARGET_DIR=os.path.join(ROOT, "target", "miri"), MIRIFLAGS="-Zmiri-disable-isolation -Zmiri-ignore-leaks")
+    env = dict(os.environ, CARGO_NET_OFFLINE="true", CARGO_TARGET_DIR=os.path.join(ROOT, "target", "miri"), MIRIFLAGS="-Zmiri-disable-isolation -Zmiri-ignore-leaks -Zmiri-symbolic-alignment-check")
     sel = ["--engines", str(i)] + (["--deep"] if deep else [])
     out = os.path.join(ROOT, "evidence", f".C01.miri.{i}.json")
     t = time.time()
@@ -91,7 +91,7 @@ def run(tier, seed, drv):
     rt = drv["run_rt"]("C01", tier, 3 * 3600)
     # ---- (3) Miri: first make sure the interpreter build exists (one build, then parallel runs)
     deep = tier == "thorough"
-    env = dict(os.environ, CARGO_NET_OFFLINE="true", CARGO_TARGET_DIR=os.path.join(ROOT, "target", "miri"), MIRIFLAGS="-Zmiri-disable-isolation -Zmiri-ignore-leaks")
+    env = dict(os.environ, CARGO_NET_OFFLINE="true", CARGO_TARGET_DIR=os.path.join(ROOT, "target", "miri"), MIRIFLAGS="-Zmiri-disable-isolation -Zmiri-ignore-leaks -Zmiri-symbolic-alignment-check")
     b = subprocess.run(["cargo", "+nightly", "miri", "run", "--offline", "-q", "-p", "rt", "--", "C01", "--tier", "miri", "--out", "/dev/null", "--engines", "999"], cwd=os.path.join(ROOT, "harness"), env=env, stdout=subprocess.PIPE, stderr=subprocess.PIPE, text=True)
     if b.returncode != 0:
         rep["machinery_errors"].append("cargo miri could not build/run the harness: " + b.stderr[-1500:])
@@ -112,7 +112,7 @@ def run(tier, seed, drv):
                 only_sb = "Stacked Borrows" in msg or "tag" in msg and "retag" in msg
                 confirmed = True
                 if only_sb:
-                    env2 = dict(os.environ, CARGO_NET_OFFLINE="true", CARGO_TARGET_DIR=os.path.join(ROOT, "target", "miri"), MIRIFLAGS="-Zmiri-disable-isolation -Zmiri-ignore-leaks -Zmiri-tree-borrows")
+                    env2 = dict(os.environ, CARGO_NET_OFFLINE="true", CARGO_TARGET_DIR=os.path.join(ROOT, "target", "miri"), MIRIFLAGS="-Zmiri-disable-isolation -Zmiri-ignore-leaks -Zmiri-symbolic-alignment-check -Zmiri-tree-borrows")
                     p2 = subprocess.run(["cargo", "+nightly", "miri", "run", "--offline", "-q", "-p", "rt", "--", "C01", "--tier", "miri", "--out", "/dev/null", "--engines", str(i)] + (["--deep"] if deep else []), cwd=os.path.join(ROOT, "harness"), env=env2, stdout=subprocess.PIPE, stderr=subprocess.PIPE, text=True)
                     confirmed = "Undefined Behavior" in p2.stderr
                     if not confirmed:
@@ -144,7 +144,7 @@ def run(tier, seed, drv):
                 rep["machinery_errors"] += r0["machinery_errors"]
                 continue
             ws = os.path.join(e3.GEN, pid)
-            menv = dict(os.environ, CARGO_NET_OFFLINE="true", CARGO_TARGET_DIR=os.path.join(ROOT, "target", "miri-gen"), MIRIFLAGS="-Zmiri-disable-isolation -Zmiri-ignore-leaks", RUSTFLAGS="-Awarnings")
+            menv = dict(os.environ, CARGO_NET_OFFLINE="true", CARGO_TARGET_DIR=os.path.join(ROOT, "target", "miri-gen"), MIRIFLAGS="-Zmiri-disable-isolation -Zmiri-ignore-leaks -Zmiri-symbolic-alignment-check", RUSTFLAGS="-Awarnings")
             def one(si):
                 t = time.time()
                 p = subprocess.run(["cargo", "+nightly", "miri", "run", "--offline", "-q", "-p", f"{prefix}_{si}"], cwd=ws, env=menv, stdout=subprocess.PIPE, stderr=subprocess.PIPE, text=True)
